@@ -48,6 +48,8 @@ func init() {
 				renameRule(c, "C12.11", "C01.19")
 			}, MinSites: 2},
 			{ID: "C01.20", Desc: "the stale-while-revalidate window is measured with the current age", Run: func(c *Ctx) { ruleSWRWindowAge(c, "C01.20") }, MinSites: 1},
+			{ID: "C01.21", Desc: "the entry's Date is the decoded Date field", Run: func(c *Ctx) { ruleDateAccessorPure(c, "C01.21") }, MinSites: 1},
+			{ID: "C01.22", Desc: "header dates are decoded leniently everywhere", Run: func(c *Ctx) { ruleDatesThroughTheDecoder(c, "C01.22") }, MinSites: 1},
 		},
 	})
 }
